@@ -42,6 +42,26 @@ def simulate(table, nodes, num, seed, workers=5):
     return r, models
 
 
+def pair_models(table, workers=6):
+    """every ordered producer/consumer pair of data commands (EEMSModel.PairInit)"""
+    d = core.scratch_dir("mpv-emp-")
+    cfg = os.path.join(d, "p.cfg")
+    with open(cfg, "w") as f:
+        f.write("CONSTANTS MaxNodes = 6 TableId = %d\nINIT PairInit\nNEXT PairNext\nCHECK_DEADLOCK FALSE\nINVARIANT PrefixStable\nINVARIANT PairReport\n" % table)
+    r = core.run_tlc("EEMSModel", cfg, workers=workers, timeout=1500)
+    if r.violated or r.error or r.rc != 0:
+        sys.stderr.write("MACHINERY FAILURE: EEMSModel pairs %s\n%s\n" % (r.violated, r.out[-2000:]))
+        sys.exit(2)
+    models, seen = [], set()
+    for b in _blocks(r.out, "MODEL"):
+        _, tid, ns, ok, vals = b
+        key = json.dumps(ns)
+        if ok and key not in seen:
+            seen.add(key)
+            models.append({"table": tid, "nodes": ns, "vals": vals, "pair": True})
+    return r, models
+
+
 TABLES = None
 
 
@@ -191,7 +211,7 @@ def run_one(job):
     wrote = sorted(os.listdir(wd))
     shutil.rmtree(wd, ignore_errors=True)
     ev = [e for e in tracer.EV if e["ev"] != "clean"]
-    trace = {"id": jid, "strict": False, "deps": deps, "fails": [], "ignored": {n: [] for n in deps}, "ev": ev}
+    trace = {"id": jid, "strict": False, "deps": deps, "fails": [], "late": [], "ignored": {n: [] for n in deps}, "ev": ev}
     return {"id": jid, "table": model["table"], "nodes": model["nodes"], "obs": obs}, trace, src, err, wrote
 
 
@@ -203,11 +223,16 @@ def check_C02(tier):
     nsim = 12 if tier == "quick" else 250
     sizes = [(1, 5), (2, 6), (3, 7)] if tier == "quick" else [(1, 5), (2, 6), (3, 7), (1, 8), (2, 4), (3, 6)]
     res = [None] * len(sizes)
+    pres = {}
 
     def work(i):
         res[i] = simulate(sizes[i][0], sizes[i][1], nsim, core.SEED + i)
 
-    ths = [threading.Thread(target=work, args=(i,)) for i in range(len(sizes))]
+    def pwork(t):
+        pres[t] = pair_models(t)
+
+    ptables = [core.SEED % 3 + 1] if tier == "quick" else [1, 2, 3]
+    ths = [threading.Thread(target=work, args=(i,)) for i in range(len(sizes))] + [threading.Thread(target=pwork, args=(t,)) for t in ptables]
     for t in ths:
         t.start()
     for t in ths:
@@ -225,6 +250,16 @@ def check_C02(tier):
     for mi, m in enumerate(models):
         for oi, o in enumerate(orders):
             jobs.append((len(jobs), m, o, core.SEED * 1000003 + mi * 17 + oi))
+    npairs = 0
+    for t in ptables:
+        r, ms = pres[t]
+        chk.add_tlc("EEMSModel producer/consumer pairs, table %d" % t, r, "INIT PairInit: every ordered pair of data commands with compatible fuzziness")
+        npairs += len(ms)
+        for mi, m in enumerate(ms):
+            for oi, o in enumerate(["created", "reversed"]):
+                jobs.append((len(jobs), m, o, core.SEED * 7919 + mi * 13 + oi))
+        models = models + ms
+    chk.cov["producer_consumer_pairs"] = npairs
     with Pool(core.NCPU, initializer=_init) as pool:
         results = pool.map(run_one, jobs, chunksize=max(1, len(jobs) // (core.NCPU * 8)))
     chk.cov["evaluations"] += len(results)
@@ -256,7 +291,7 @@ def check_C02(tier):
                        "PrintVars to a file, a Copy of an intermediate), run through from_source + run on a CSV of the table; TLC validates every node's observed array against Val (EEMSModelTrace) and the "
                        "recorded engine events against MPRunAbsTrace. non-trivial = model containing a command with at least two inputs")
     chk.cov["exhaustive"] = False
-    chk.assumptions += ["float results within 1e-9 relative of a rational with denominator <= 20000 are identified with it", "result dtype / array subclass are not compared",
+    chk.assumptions += ["float results within 1e-9 relative of a rational with denominator <= 1 000 000 are identified with it", "result dtype / array subclass are not compared",
                         "z-score commands only on data with rational standard deviation; data-dependent commands only on data with >= 2 distinct values"]
     return chk.finish()
 
